@@ -89,6 +89,11 @@ inductive Inner where
   | field (tr : Trait) (f : Name)
   deriving Repr, DecidableEq, Inhabited
 
+/-- The argument handed to `format_args!` for an attribute-less single-field variant under a
+wrapping enum-level format: `{:p}` formats the reference it is given, so under `Pointer` the bound
+field (`_0 : &Field`) is dereferenced; every other trait formats `&T` like `T`. -/
+def wrappedFieldDeref (tr : Trait) : Bool := tr = Trait.pointer
+
 inductive BodyD where
   | delegate (tr : Trait) (expr : String)
   | write (a : FmtAttr) (derefs : List Name)
